@@ -102,27 +102,23 @@ example (env : Env) : GoodP env reachAt (4 * env.size + 11) (5 * (4 * env.size +
 
 /-- **C01 (scanning stage), every project**: whatever the root file, the files reachable through
     INCLUDE, the include graph (cyclic, missing and directory targets included), the ban set and the
-    fuel, the core's scanning loop never reaches a crash site of the scanner and never takes the value of
-    a lexeme that is not a slice of its file: the scanner of the file being read and of every suspended
-    file stays in a state covered by the reach certificate.  The only crash sites of the scanning-stage
-    model left are the three dereferences of `currentDirective` in processParameter / processAnnotation /
-    processBody (that such a lexeme never arrives without a directive is a property of the *order* of
-    lexemes; correspondence-level). -/
+    fuel, the core's scanning loop never reaches a crash site of the scanner, never takes the value of
+    a lexeme that is not a slice of its file, and never dereferences a nil `currentDirective` in
+    processParameter or processAnnotation: the scanner of the file being read and of every suspended
+    file stays in a state covered by the reach certificate, and whenever it may report a parameter or an
+    annotation the core has a current directive or has just resumed the scanner after an INCLUDE (then
+    the lexeme is refused with an error).  The one crash site of the scanning-stage model left is the
+    dereference in processBody (a body lexeme as the first lexeme after an INCLUDE line cannot be
+    excluded by the abstract domain, which does not know that a keyword is INCLUDE; correspondence-level). -/
 theorem C01_scanning_stage_crash_sites (fsys : FileSys) (n : Nat) (rootName : Bytes) (content : Array UInt8)
     (lenAt : BodyKind → Nat → LenAnswer) (banned : List Kind) (site : String)
     (h : Core.run fsys n { current := { name := rootName, env := mkEnv content lenAt, sc := Sc.init .stateRoot }, banned := banned }
           = .error (.panic site)) :
-    site = "processParameter: currentDirective is nil" ∨ site = "processAnnotation: currentDirective is nil" ∨
-      site = "processBody: currentDirective is nil" := by
+    site = "processBody: currentDirective is nil" := by
   have := run_safe reachInputs reachAt C12.table_ok C12.root_in_reach fsys n _
-    ⟨good_init (mkEnv content lenAt) reachAt .stateRoot C12.root_in_reach, fun p hp => by cases hp⟩ site h
-  by_cases h1 : site = "processParameter: currentDirective is nil"
-  · exact Or.inl h1
-  · by_cases h2 : site = "processAnnotation: currentDirective is nil"
-    · exact Or.inr (Or.inl h2)
-    · by_cases h3 : site = "processBody: currentDirective is nil"
-      · exact Or.inr (Or.inr h3)
-      · exact absurd ⟨h1, h2, h3⟩ this
+    ⟨good_init (mkEnv content lenAt) reachAt .stateRoot C12.root_in_reach, fun p hp => by cases hp⟩
+    (fun hp => by simp [Sc.init] at hp) site h
+  simpa [ScanStagePanic] using this
 
 /-! ### the build stage never dereferences nil (Model/Build.lean, tied by op `cat`) -/
 
